@@ -19,6 +19,7 @@ from ast import (
 from collections import OrderedDict
 from functools import partial
 from itertools import chain
+from os import getpid, path, remove, replace
 from textwrap import indent
 
 from black import Mode, format_str
@@ -560,8 +561,23 @@ def file(node, filename, mode="a", skip_black=False):
                 string_normalization=False,
             ),
         )
-    with open(filename, mode) as f:
-        f.write(src)
+    # Never leave `filename` truncated or half-written: the complete new content goes to a
+    # sibling temporary file which then atomically takes the place of `filename`.
+    if "a" in mode and path.isfile(filename):
+        with open(filename, "rt") as f:
+            existing = f.read()
+        src = "{}{}{}".format(
+            existing, "" if not existing or existing.endswith("\n") else "\n", src
+        )
+    tmp_filename = "{}.{}.tmp".format(filename, getpid())
+    try:
+        with open(tmp_filename, "wt") as f:
+            f.write(src)
+        replace(tmp_filename, filename)
+    except BaseException:
+        if path.isfile(tmp_filename):
+            remove(tmp_filename)
+        raise
 
 
 def function(
